@@ -207,7 +207,7 @@ def ent(name, kind, gen, call, layout_plain, layout_full, spec0=None):
 
 
 SI, SIR = ['S', 'I'], ['S', 'I', 'R']
-GRIDS = [('0', '5', 3), ('1', '3', 5), ('-1', '4', 2), ('1/2', '9/2', 4), ('0', '2', 1)]
+GRIDS = [('0', '5', 3), ('1', '3', 5), ('-1', '4', 2), ('1/2', '9/2', 4), ('0', '2', 1), ('2', '3', 3), ('-2', '-1', 4), ('0', '1', 2)]
 
 
 def rates(rng):
@@ -544,7 +544,7 @@ def gpk(rng):
     w = [rng.randint(1, 4) for _ in keys]; tot = sum(w)
     pk = [[k, fs(F(x, tot))] for k, x in zip(keys, w)]
     kave = sum(k * F(p) for k, p in pk) or F(1)
-    pnk = [[k, [[k2, fs(k2 * F(p2) / kave)] for k2, p2 in pk]] for k, _ in pk]
+    pnk = [[k, [[k2, fs(k2 * F(p2) / kave)] for k2, p2 in pk if k2 >= 1]] for k, _ in pk]      # a neighbour has degree >= 1 (get_Pnk never lists k2 = 0)
     return pk, pnk
 
 
@@ -623,7 +623,11 @@ def fg0(p):
 
 def g_ebdg(rng):
     a, ic = g_fg(rng, nmax=5)
-    a.update(q=[fs(F(rng.randint(0, 8), 8))], z=dz(rng))
+    g = a['graph']; deg = [0] * len(g['nodes'])
+    for i, j in g['edges']:
+        deg[i] += 1; deg[j] += 1
+    # p = 1 on a graph with isolated nodes is the known finding C06/EBCM_discrete_from_graph/nan/iso=1/p1=1 (0*inf once theta = 0), judged by c06.py
+    a.update(q=[fs(F(rng.randint(0, 7 if min(deg) == 0 else 8), 8))], z=dz(rng))
     return {'a': a, 'py': {}, 'variant': ic['mode']}
 
 
@@ -636,7 +640,7 @@ def g_pmd(rng):
     pk = [kp for kp in pk if kp[0] <= 3] or [[2, '1']]
     tot = sum(F(p) for _, p in pk); pk = [[k, fs(F(p) / tot)] for k, p in pk]
     kave = sum(k * F(p) for k, p in pk) or F(1)
-    pnk = [[k, [[k2, fs(k2 * F(p2) / kave)] for k2, p2 in pk]] for k, _ in pk]
+    pnk = [[k, [[k2, fs(k2 * F(p2) / kave)] for k2, p2 in pk if k2 >= 1]] for k, _ in pk]
     return {'a': dict(q=[fs(F(rng.choice([8, 16, 10]))), fs(F(rng.randint(0, 8), 8))], oq=[rng.choice([None, fs(F(rng.randint(1, 7), 8))])], pk=pk, pnk=pnk, z=dz(rng)), 'py': {}}
 
 
